@@ -583,19 +583,18 @@ theorem mont_rep {m : List Nat} {k : Nat} (h : MCtx m k) (z1 z2 : List Nat) (a b
   rw [e2] at this
   exact c.trans this
 
-theorem fourSquarings_rep {m : List Nat} {k : Nat} (h : MCtx m k) (z : List Nat) (a : Nat) (r : Rep m z a) :
-    ∃ z', fourSquarings m k m.length z = .ok z' ∧ Rep m z' (a ^ 16) := by
-  unfold fourSquarings
-  obtain ⟨z1, e1, r1⟩ := mont_rep h z z a a r r
-  obtain ⟨z2, e2, r2⟩ := mont_rep h z1 z1 _ _ r1 r1
-  obtain ⟨z3, e3, r3⟩ := mont_rep h z2 z2 _ _ r2 r2
-  obtain ⟨z4, e4, r4⟩ := mont_rep h z3 z3 _ _ r3 r3
-  rw [e1]; simp only []
-  rw [e2]; simp only []
-  rw [e3]; simp only []
-  refine ⟨z4, e4, ?_⟩
-  have : a * a * (a * a) * (a * a * (a * a)) * (a * a * (a * a) * (a * a * (a * a))) = a ^ 16 := by ring
-  rw [← this]; exact r4
+/-- `s` Montgomery squarings of a representative of `a` give a representative of `a^(2^s)` -/
+theorem squaringsN_rep {m : List Nat} {k : Nat} (h : MCtx m k) :
+    ∀ (s : Nat) (z : List Nat) (a : Nat), Rep m z a →
+      ∃ z', squaringsN m k m.length s z = .ok z' ∧ Rep m z' (a ^ (2 ^ s))
+  | 0, z, a, r => ⟨z, rfl, by simpa using r⟩
+  | s + 1, z, a, r => by
+    obtain ⟨z1, e1, r1⟩ := mont_rep h z z a a r r
+    obtain ⟨z', e2, r2⟩ := squaringsN_rep h s z1 (a * a) r1
+    refine ⟨z', by simp only [squaringsN, e1, e2], ?_⟩
+    have : (a * a) ^ (2 ^ s) = a ^ (2 ^ (s + 1)) := by
+      rw [← pow_two, ← pow_mul, pow_succ, Nat.mul_comm]
+    rw [← this]; exact r2
 
 /-- the table invariant: entry `i` represents `b^i` -/
 def Table (m : List Nat) (b : Nat) (powers : List (List Nat)) (cnt : Nat) : Prop :=
@@ -621,26 +620,27 @@ theorem tableLoop_spec {m : List Nat} {k : Nat} (h : MCtx m k) (b : Nat) (p1 : L
       rw [this]; exact hrp
 
 
-/-- the window loop with 4-bit windows: `cnt` windows left, the current digit holds them in its top
-    `4·cnt` bits (`yi = u · 2^(64 - 4 cnt)`); squarings may be skipped only while the accumulated
-    exponent is still 0 -/
+/-- the window loop with `w`-bit windows and `w` squarings per window: `cnt` windows left, the current
+    digit holds them in its top `w·cnt` bits (`yi = u · 2^(64 - w·cnt)`); squarings may be skipped only
+    while the accumulated exponent is still 0 -/
 theorem windowLoop_spec {m : List Nat} {k : Nat} (h : MCtx m k) (b : Nat) (powers : List (List Nat))
-    (hT : Table m b powers 16) (first : Bool) :
-    ∀ cnt j u z E, cnt ≤ 16 → u < 2 ^ (4 * cnt) → Rep m z (b ^ E) → (first = true ∧ j = 0 → E = 0) →
-      ∃ z', windowLoop 4 m k m.length powers first cnt j (u * 2 ^ (64 - 4 * cnt)) z = .ok z' ∧
-        Rep m z' (b ^ (E * 2 ^ (4 * cnt) + u))
+    (w : Nat) (hw : 0 < w) (hT : Table m b powers (2 ^ w)) (first : Bool) :
+    ∀ cnt j u z E, w * cnt ≤ 64 → u < 2 ^ (w * cnt) → Rep m z (b ^ E) → (first = true ∧ j = 0 → E = 0) →
+      ∃ z', windowLoop w w m k m.length powers first cnt j (u * 2 ^ (64 - w * cnt)) z = .ok z' ∧
+        Rep m z' (b ^ (E * 2 ^ (w * cnt) + u))
   | 0, j, u, z, E, _, hu, hz, _ => by
     have : u = 0 := by simpa using hu
     subst this
     exact ⟨z, rfl, by simpa using hz⟩
   | cnt + 1, j, u, z, E, hcnt, hu, hz, hskip => by
     rw [windowLoop]
+    have hs : w * (cnt + 1) = w * cnt + w := Nat.mul_succ w cnt
     -- the squarings
-    have hsq : ∃ z1, (if ¬ first = true ∨ j ≠ 0 then fourSquarings m k m.length z else .ok z) = .ok z1 ∧
-        Rep m z1 (b ^ (E * 16)) := by
+    have hsq : ∃ z1, (if ¬ first = true ∨ j ≠ 0 then squaringsN m k m.length w z else .ok z) = .ok z1 ∧
+        Rep m z1 (b ^ (E * 2 ^ w)) := by
       by_cases hc : ¬ first = true ∨ j ≠ 0
       · simp only [hc, if_true]
-        obtain ⟨z1, e1, r1⟩ := fourSquarings_rep h z _ hz
+        obtain ⟨z1, e1, r1⟩ := squaringsN_rep h w z _ hz
         exact ⟨z1, e1, by rw [← pow_mul] at r1; exact r1⟩
       · simp only [hc, if_false]
         have hE : E = 0 := hskip (by
@@ -652,72 +652,74 @@ theorem windowLoop_spec {m : List Nat} {k : Nat} (h : MCtx m k) (b : Nat) (power
     obtain ⟨z1, e1, r1⟩ := hsq
     simp only [e1]
     -- the window value
-    have hp : (2:Nat) ^ (4 * (cnt + 1)) = 2 ^ (4 * cnt) * 16 := by rw [Nat.mul_add, pow_add]; norm_num
-    have hq : (2:Nat) ^ (64 - 4 * cnt) = 2 ^ (64 - 4 * (cnt + 1)) * 16 := by
-      have : 64 - 4 * cnt = (64 - 4 * (cnt + 1)) + 4 := by omega
-      rw [this, pow_add]; norm_num
-    have h60 : (2:Nat) ^ 60 = 2 ^ (4 * cnt) * 2 ^ (64 - 4 * (cnt + 1)) := by
+    have hp : (2:Nat) ^ (w * (cnt + 1)) = 2 ^ (w * cnt) * 2 ^ w := by rw [hs, pow_add]
+    have hq : (2:Nat) ^ (64 - w * cnt) = 2 ^ (64 - w * (cnt + 1)) * 2 ^ w := by
       rw [← pow_add]; congr 1; omega
-    have hidx : (u * 2 ^ (64 - 4 * (cnt + 1))) >>> (BITS - 4) = u / 2 ^ (4 * cnt) := by
-      have : BITS - 4 = 60 := rfl
+    have h60 : (2:Nat) ^ (64 - w) = 2 ^ (w * cnt) * 2 ^ (64 - w * (cnt + 1)) := by
+      rw [← pow_add]; congr 1; omega
+    have hidx : (u * 2 ^ (64 - w * (cnt + 1))) >>> (BITS - w) = u / 2 ^ (w * cnt) := by
+      have : BITS - w = 64 - w := rfl
       rw [this, Nat.shiftRight_eq_div_pow, h60]
       exact Nat.mul_div_mul_right _ _ (Nat.pow_pos (by decide))
-    have hidx16 : u / 2 ^ (4 * cnt) < 16 := by
+    have hidxw : u / 2 ^ (w * cnt) < 2 ^ w := by
       rw [Nat.div_lt_iff_lt_mul (Nat.pow_pos (by decide)), Nat.mul_comm]
       rw [hp] at hu; exact hu
-    obtain ⟨p, hp1, hp2⟩ := hT _ hidx16
+    obtain ⟨p, hp1, hp2⟩ := hT _ hidxw
     rw [hidx, hp1]
     simp only []
     obtain ⟨zz, e2, r2⟩ := mont_rep h z1 p _ _ r1 hp2
     rw [e2]
     simp only []
     -- the shifted digit
-    have hshift : ((u * 2 ^ (64 - 4 * (cnt + 1))) <<< 4) % B = (u % 2 ^ (4 * cnt)) * 2 ^ (64 - 4 * cnt) := by
+    have hshift : ((u * 2 ^ (64 - w * (cnt + 1))) <<< w) % B = (u % 2 ^ (w * cnt)) * 2 ^ (64 - w * cnt) := by
       rw [Nat.shiftLeft_eq, hq]
-      have hB : B = 2 ^ (4 * cnt) * (2 ^ (64 - 4 * (cnt + 1)) * 16) := by
+      have hB : B = 2 ^ (w * cnt) * (2 ^ (64 - w * (cnt + 1)) * 2 ^ w) := by
         rw [B_eq, ← hq, ← pow_add]; congr 1; omega
-      rw [hB]
-      have : (2:Nat) ^ 4 = 16 := by norm_num
-      rw [this, Nat.mul_assoc]
+      rw [hB, Nat.mul_assoc]
       exact Nat.mul_mod_mul_right _ _ _
     rw [hshift]
-    have hu' : u % 2 ^ (4 * cnt) < 2 ^ (4 * cnt) := Nat.mod_lt _ (Nat.pow_pos (by decide))
+    have hu' : u % 2 ^ (w * cnt) < 2 ^ (w * cnt) := Nat.mod_lt _ (Nat.pow_pos (by decide))
     rw [← pow_add] at r2
-    obtain ⟨z', e3, r3⟩ := windowLoop_spec h b powers hT first cnt (j + 4) (u % 2 ^ (4 * cnt)) zz
-      (E * 16 + u / 2 ^ (4 * cnt)) (by omega) hu' r2 (by intro ⟨_, h0⟩; omega)
+    obtain ⟨z', e3, r3⟩ := windowLoop_spec h b powers w hw hT first cnt (j + w) (u % 2 ^ (w * cnt)) zz
+      (E * 2 ^ w + u / 2 ^ (w * cnt)) (by omega) hu' r2 (by intro ⟨_, h0⟩; omega)
     refine ⟨z', e3, ?_⟩
-    have : (E * 16 + u / 2 ^ (4 * cnt)) * 2 ^ (4 * cnt) + u % 2 ^ (4 * cnt) = E * 2 ^ (4 * (cnt + 1)) + u := by
+    have : (E * 2 ^ w + u / 2 ^ (w * cnt)) * 2 ^ (w * cnt) + u % 2 ^ (w * cnt)
+        = E * 2 ^ (w * (cnt + 1)) + u := by
       rw [hp]
-      have := Nat.div_add_mod u (2 ^ (4 * cnt))
-      calc (E * 16 + u / 2 ^ (4 * cnt)) * 2 ^ (4 * cnt) + u % 2 ^ (4 * cnt)
-          = E * (2 ^ (4 * cnt) * 16) + (2 ^ (4 * cnt) * (u / 2 ^ (4 * cnt)) + u % 2 ^ (4 * cnt)) := by ring
-        _ = E * (2 ^ (4 * cnt) * 16) + u := by rw [this]
+      have := Nat.div_add_mod u (2 ^ (w * cnt))
+      calc (E * 2 ^ w + u / 2 ^ (w * cnt)) * 2 ^ (w * cnt) + u % 2 ^ (w * cnt)
+          = E * (2 ^ (w * cnt) * 2 ^ w) + (2 ^ (w * cnt) * (u / 2 ^ (w * cnt)) + u % 2 ^ (w * cnt)) := by ring
+        _ = E * (2 ^ (w * cnt) * 2 ^ w) + u := by rw [this]
     rw [← this]; exact r3
 
+/-- the number of windows per exponent digit when the window width divides the digit width -/
+theorem window_count (w : Nat) (hw : 0 < w) (hwd : w ∣ 64) : (BITS + w - 1) / w = 64 / w := by
+  obtain ⟨c, hc⟩ := hwd
+  have h1 : BITS + w - 1 = w * c + (w - 1) := by unfold BITS; omega
+  rw [h1, Nat.mul_add_div hw, Nat.div_eq_of_lt (by omega), hc, Nat.mul_div_cancel_left _ hw, Nat.add_zero]
+
 theorem digitLoop_spec {m : List Nat} {k : Nat} (h : MCtx m k) (b : Nat) (powers : List (List Nat))
-    (hT : Table m b powers 16) (ylen : Nat) :
+    (w : Nat) (hw : 0 < w) (hwd : w ∣ 64) (hT : Table m b powers (2 ^ w)) (ylen : Nat) :
     ∀ yrev z E, DigitsOk yrev → yrev.length ≤ ylen → (yrev.length = ylen → E = 0) → Rep m z (b ^ E) →
-      ∃ z', digitLoop 4 m k m.length powers ylen yrev z = .ok z' ∧
+      ∃ z', digitLoop w w m k m.length powers ylen yrev z = .ok z' ∧
         Rep m z' (b ^ (E * B ^ yrev.length + val yrev.reverse))
   | [], z, E, _, _, _, hz => ⟨z, rfl, by simpa [val] using hz⟩
   | yi :: rest, z, E, hd, hl, hE, hz => by
     rw [digitLoop]
-    have hcnt : (BITS + 4 - 1) / 4 = 16 := rfl
-    have hyi : yi < 2 ^ (4 * 16) := by have := hd.head; rw [B_eq] at this; exact this
-    have hw := windowLoop_spec h b powers hT (rest.length == ylen - 1) 16 0 yi z E (le_refl _) hyi hz (by
+    have hmul : w * (64 / w) = 64 := Nat.mul_div_cancel' hwd
+    have hyi : yi < 2 ^ (w * (64 / w)) := by rw [hmul]; have := hd.head; rw [B_eq] at this; exact this
+    have hwl := windowLoop_spec h b powers w hw hT (rest.length == ylen - 1) (64 / w) 0 yi z E
+      (Nat.le_of_eq hmul) hyi hz (by
       intro ⟨h1, _⟩
       apply hE
       have : rest.length = ylen - 1 := by simpa using h1
       simp only [List.length_cons] at hl ⊢
       omega)
-    have h00 : (2:Nat) ^ (64 - 4 * 16) = 1 := by norm_num
-    rw [h00, Nat.mul_one] at hw
-    obtain ⟨z1, e1, r1⟩ := hw
-    rw [hcnt, e1]
+    rw [hmul, Nat.sub_self, pow_zero, Nat.mul_one, ← B_eq] at hwl
+    obtain ⟨z1, e1, r1⟩ := hwl
+    rw [window_count w hw hwd, e1]
     simp only []
-    have h64 : (2:Nat) ^ (4 * 16) = B := by rw [B_eq]
-    rw [h64] at r1
-    obtain ⟨z', e2, r2⟩ := digitLoop_spec h b powers hT ylen rest z1 (E * B + yi) hd.tail
+    obtain ⟨z', e2, r2⟩ := digitLoop_spec h b powers w hw hwd hT ylen rest z1 (E * B + yi) hd.tail
       (by simp only [List.length_cons] at hl; omega)
       (by intro h0; simp only [List.length_cons] at hl; omega) r1
     refine ⟨z', e2, ?_⟩
@@ -769,7 +771,8 @@ theorem last_reduction (v M : Nat) (hM : 0 < M) :
   · simp only [h, if_false]; rw [Nat.mod_eq_of_lt (by omega)]
 
 /-- `monty_modpow(x, y, m)` for an odd modulus returns `x^y mod m` -/
-theorem montyModpow_spec (P : Params) (hP : P.window = 4) (x y m : List Nat) (m0 : Nat) (mt : List Nat)
+theorem montyModpow_spec (P : Params) (hw0 : 0 < P.window) (hwd : P.window ∣ 64)
+    (hsq : P.squarings = P.window) (x y m : List Nat) (m0 : Nat) (mt : List Nat)
     (hm : m = m0 :: mt) (hodd : m0 % 2 = 1)
     (hx : DigitsOk x) (hy : DigitsOk y) (hmd : DigitsOk m) :
     montyModpow P x y m = .ok (ofNat (val x ^ val y % val m)) := by
@@ -780,7 +783,8 @@ theorem montyModpow_spec (P : Params) (hP : P.window = 4) (x y m : List Nat) (m0
   simp only [h1, if_false]
   obtain ⟨k, hk, hkB, hkm⟩ := invModAlt_spec m0 hmd.head hodd
   rw [hk]
-  simp only [hP]
+  simp only [hsq]
+  generalize P.window = w at *
   have hctx : MCtx (m0 :: mt) k := ⟨m0, mt, rfl, hodd, hkm, hmd⟩
   have hMpos := mctx_pos hctx
   have hcop := mctx_coprime hctx
@@ -818,8 +822,8 @@ theorem montyModpow_spec (P : Params) (hP : P.window = 4) (x y m : List Nat) (m0
   have done : DigitsOk (padTo [1] m.length) := padTo_ok _ _ (DigitsOk.cons (by decide) DigitsOk.nil)
   have vone : val (padTo [1] m.length) = 1 := by rw [padTo_val]; simp [val]
   generalize padTo [1] m.length = one at *
-  have hw0 : ¬ ((4:Nat) = 0) := by decide
-  simp only [hw0, if_false]
+  have hwne : ¬ (w = 0) := by omega
+  simp only [hwne, if_false]
   -- powers[0], powers[1]
   obtain ⟨p0, e0, l0, d0, c0⟩ := mont_mul hctx one rr lone lrr done drr
   have r0 : Rep m p0 (val x ^ 0) := by
@@ -839,10 +843,9 @@ theorem montyModpow_spec (P : Params) (hP : P.window = 4) (x y m : List Nat) (m0
   rw [e0]; simp only []
   rw [e1]; simp only []
   have r1' : Rep m p1 (val x ^ 1) := by simpa using r1
-  obtain ⟨rest, et, ht⟩ := tableLoop_spec hctx (val x) p1 r1 14 p1 1 r1'
-  have h14 : 2 ^ 4 - 2 = 14 := by norm_num
-  rw [h14, et]; simp only []
-  have hT : Table m (val x) (p0 :: p1 :: rest) 16 := by
+  obtain ⟨rest, et, ht⟩ := tableLoop_spec hctx (val x) p1 r1 (2 ^ w - 2) p1 1 r1'
+  rw [et]; simp only []
+  have hT : Table m (val x) (p0 :: p1 :: rest) (2 ^ w) := by
     intro i hi
     match i with
     | 0 => exact ⟨p0, rfl, r0⟩
@@ -854,7 +857,7 @@ theorem montyModpow_spec (P : Params) (hP : P.window = 4) (x y m : List Nat) (m0
       rw [this] at hr; exact hr
   have hrs : resize p0 m.length = p0 := by rw [← l0]; exact resize_self p0
   rw [hrs]
-  obtain ⟨z, ez, rz⟩ := digitLoop_spec hctx (val x) (p0 :: p1 :: rest) hT y.length y.reverse p0 0
+  obtain ⟨z, ez, rz⟩ := digitLoop_spec hctx (val x) (p0 :: p1 :: rest) w hw0 hwd hT y.length y.reverse p0 0
     (by intro d hd; exact hy d (List.mem_reverse.mp hd)) (by simp) (fun _ => rfl) r0
   rw [ez]; simp only []
   rw [List.reverse_reverse, Nat.zero_mul, Nat.zero_add] at rz
